@@ -125,7 +125,8 @@ def r2(chk, fx, t, body):
     # other content -> error (catch-all arms return Err), in the body loop and the then loop
     for lp in loops:
         ca = [a for a in lp.arms if a.catch_all]
-        ok = len(ca) == 1 and "returnResult::Err(" in ca[0].body_text() and "UnexpectedXmlEvent" in ca[0].body_text()
+        ok = len(ca) == 1 and "returnResult::Err(" in ca[0].body_text() and "UnexpectedXmlEvent" in ca[0].body_text() \
+            and not R.lenient_arms(lp) and not R.repeated_names(lp)
         chk.instance("C16/R2", "%s: any other content is an error (statement never selected)" % lp.label(), t["def"], loc_of(lp.sp), holds=ok,
                      key="C16/R2 %s catch-all" % lp.label())
         elems = sorted(n for n in lp.element_names())
